@@ -12,8 +12,9 @@ import CalVerif.Prim.Res
     * `src/xlsb/mod.rs wide_str`                → `wideStr` (result: UTF-16 code units)
 
     What is NOT modelled (trusted third-party layers, tied by the correspondence run only):
-    quick-xml's tokenisation — the split of the part into events, entity / character-reference unescaping of
-    `Text` events, CDATA delimiting, attribute unescaping, and the reader configuration
+    quick-xml's tokenisation — the split of the part into events, CDATA delimiting, attribute parsing (the
+    unescaping of `Text` events and attribute values is modelled separately in `Model/XmlEscape.lean`), and
+    the reader configuration
     `expand_empty_elements = true` (an empty element `<x/>` is delivered as `Start x`, `End x`: the event type
     below therefore has no `Empty` constructor; the wire parser of the driver performs the expansion),
     `trim_text(false)` (no text is dropped or trimmed); and encoding_rs (UTF-16 units → `String`).
@@ -320,11 +321,11 @@ def odsStep : OdsMode → Ev → Step OdsMode Txt
   | .annot s first, .end_ n => if n = annotation then .cont (.normal s first) else .cont (.annot s first)
   | .annot s first, _ => .cont (.annot s first)
 
-/-- events exhausted: the text loop returns `Eof`; the annotation-skipping loop has no `Eof` arm and
-    spins forever on `Ok(Eof)` (modelled as `outOfFuel`; a robustness matter of property C06) -/
+/-- events exhausted: both loops return `Eof` (the annotation-skipping loop has its `Eof` arm since /repo
+    d6b5c9c; before that it spun forever on `Ok(Eof)`) -/
 def runOds : OdsMode → List Ev → Res (Txt × List Ev)
   | .normal _ _, [] => .err "Eof(table:table-cell)"
-  | .annot _ _, [] => .outOfFuel
+  | .annot _ _, [] => .err "Eof(office:annotation)"
   | m, e :: r =>
     match odsStep m e with
     | .cont m' => runOds m' r
